@@ -330,3 +330,20 @@ theorem rebase_decompose (vm : VM) (T I R S C : Nat)
       simp_all [shiftFrame]
 
 end GojaModel.C09.Mech
+
+namespace GojaModel.C09.Mech
+
+/-- The try stack after one live iteration of `handleThrow`: only the top frame changes. -/
+theorem liveStep_tryStack_caught (ex : Nat) (vm : VM) (tf : TryFrame) (h1 : tf.catchPos ≠ tryPanicMarker) (h2 : tf.catchPos ≥ 0) :
+    (liveStep ex vm tf).2.2.tryStack = vm.tryStack.dropLast ++ [{ tf with catchPos := -1 }] := by
+  simp only [liveStep, restoreStacks, h1, h2, if_true, if_false]
+  split <;> simp
+
+theorem liveStep_tryStack_finally (ex : Nat) (vm : VM) (tf : TryFrame) (h1 : tf.catchPos = -1) (h2 : tf.finallyPos ≥ 0) :
+    (liveStep ex vm tf).2.2.tryStack = vm.tryStack.dropLast ++ [{ tf with exc := some ex, finallyPos := -1, finallyRet := -1 }] := by
+  have hm : tf.catchPos ≠ tryPanicMarker := by rw [h1]; decide
+  have hn : ¬ tf.catchPos ≥ 0 := by rw [h1]; decide
+  simp only [liveStep, restoreStacks, hm, hn, h2, if_true, if_false]
+  split <;> simp
+
+end GojaModel.C09.Mech
